@@ -456,7 +456,10 @@ impl World for C18 {
         }
     }
 
-    fn plan(&self, index: u64, rng: &mut Rng, _tier: Tier) -> Plan {
+    fn plan(&self, index: u64, rng: &mut Rng, tier: Tier) -> Plan {
+        // the thorough tier spends a quarter of its plans beyond the quick tier's bounds:
+        // histories up to 130 operations on up to ~250 elements
+        let deep = tier == Tier::Thorough && (index / self.types.len() as u64) % 4 == 1;
         // every type is visited round-robin so that coverage per type does not
         // depend on luck; everything else is drawn
         let d = self.types[(index % self.types.len() as u64) as usize];
@@ -483,13 +486,15 @@ impl World for C18 {
         let n_ops = match rng.below(10) {
             0..=5 => 1 + rng.below(12),
             6..=8 => 8 + rng.below(24),
+            _ if deep => 48 + rng.below(83),
             _ => 24 + rng.below(25),
         } as usize;
         let mut fresh = 1000u32; // schedule-local fresh ids; pushes use a run counter
         let mut ops = Vec::with_capacity(n_ops);
         // most plans start from a non-empty container
         if rng.chance(3, 4) {
-            ops.push(Op::Collect { n: rng.below(25) as u8, panic_at: None, hint: gen_hint(rng) });
+            let n0 = if deep { rng.below(200) } else { rng.below(25) };
+            ops.push(Op::Collect { n: n0 as u8, panic_at: None, hint: gen_hint(rng) });
         }
         for _ in 0..n_ops {
             let k = rng.weighted(&weights);
@@ -708,8 +713,10 @@ impl World for C18 {
         WorldInfo {
             rule: "plan = (color type x {plain, alpha, alpha of another element type}, hue numbering, list of <=50 ops over \
                    {with_capacity, push, pop, extend, collect, clear, len, get, get(range), get_mut, get_mut(range), iter, iter_mut, \
-                   drain(range), owned into_iter, Box/array/slice/mut-slice snapshot actions}, each iterator op with a planned \
-                   next/next_back/len/size_hint/write schedule and an end of life in {drop, exhaust, count, forget}); plans are \
+                   drain(range), owned into_iter, one to three actions in a row on one Box/array/slice/mut-slice instance that is then read \
+                   back through itself}, extend/collect sources with exact, absent and loose size hints, each iterator op with a planned \
+                   next/next_back/nth/nth_back/len/size_hint/write schedule and an end of life in {drop, exhaust, count, forget, last, fold, \
+                   rfold, rev/skip/step_by adaptors}); plans are \
                    generated from the run seed (types round-robin, op kinds enabled swarm-style); distinct = distinct plan hash; \
                    non-trivial = executed at least one state-changing step and at least one comparison against the Vec model",
             state_measure: "states = distinct (type variant, length bucket, op kind, outcome class); transitions = distinct consecutive pairs",
@@ -717,7 +724,7 @@ impl World for C18 {
                 "the reference model is std's Vec<[f32;4]> driven through the same history; std's Vec, slice and Drain are trusted",
                 "items are numbered so that every component slot has its own value set; equality is bitwise on canonical items and the color type's PartialEq on raw-hue runs",
                 "after a leaked (mem::forget) drain the number of lost elements is std-unspecified: only equal component lengths and an intact prefix are demanded, then the model is re-synchronised",
-                "bounds: <= ~60 elements, <= 50 ops per plan",
+                "bounds: <= ~60 elements, <= 50 ops per plan (thorough tier, a quarter of the plans: <= ~250 elements, <= 130 ops)",
             ],
             real: vec![
                 "palette macros/struct_of_arrays.rs (all 26 instantiations)",
